@@ -46,6 +46,14 @@ def expression_programs(rng):
         out.append(A.Struct(A.Renamed("sig", A.Const(rng.choice([b"abc", b"MZ", b"\x7fELF"]), sub)), A.Renamed("t", A.Tell), A.Renamed("x", A.Alias("Byte"))))
     for leaf in (A.Bytes(2), A.Bytes(A.T("_params", "k")) if False else A.Bytes(3), A.GreedyBytes, A.Array(2, A.Alias("Byte")), A.PaddedString(4, "utf8"), A.CString("utf8")):
         out.append(probe_wrap_len(leaf))
+    # FocusedSeq: the focused value is in scope for every member, also for the ones that come before the focused one
+    fs = [A.FocusedSeq("data", A.Renamed("len", A.Rebuild(A.Alias("Byte"), A.Func("len", A.T("data")))), A.Renamed("data", A.Bytes(A.T("len")))),
+          A.FocusedSeq("v", A.Renamed("wide", A.Rebuild(A.Flag, A.Bin(">", A.T("v"), A.C(100)))), A.Renamed("v", A.IfThenElse(A.T("wide"), A.Alias("Int16ub"), A.Alias("Byte")))),
+          A.FocusedSeq("n", A.Const(b"\x01"), A.Renamed("n", A.Alias("Byte")), A.Padding(A.Bin("&", A.T("n"), A.C(3)))),
+          A.FocusedSeq("items", A.Renamed("twice", A.Rebuild(A.Alias("Byte"), A.Bin("*", A.C(2), A.Func("len", A.T("items"))))), A.Renamed("items", A.Array(A.Bin("//", A.T("twice"), A.C(2)), A.Alias("Byte"))), A.Padding(1))]
+    for f in fs:
+        out.append(f)
+        out.append(A.Struct(A.Renamed("h", A.Alias("Byte")), A.Renamed("x", f), A.Renamed("t", A.Tell)))
     out.append(A.Struct(A.Renamed("sig", A.Const("ab", A.PaddedString(6, "utf8"))), A.Renamed("v", A.Const(300, A.VarInt)), A.Renamed("t", A.Tell)))
     return out
 
